@@ -270,7 +270,8 @@ class Sym:
             if self.d.is_const():
                 return Sym(self.n.add(o.n))
             return Sym.make(self.n.add(o.n), self.d)
-        return Sym.make(self.n.mul(o.d).add(o.n.mul(self.d)), self.d.mul(o.d))
+        a, b, l = _common_den(self.d, o.d)
+        return Sym.make(self.n.mul(a).add(o.n.mul(b)), l)
 
     __radd__ = __add__
 
@@ -282,7 +283,8 @@ class Sym:
             if self.d.is_const():
                 return Sym(self.n.sub(o.n))
             return Sym.make(self.n.sub(o.n), self.d)
-        return Sym.make(self.n.mul(o.d).sub(o.n.mul(self.d)), self.d.mul(o.d))
+        a, b, l = _common_den(self.d, o.d)
+        return Sym.make(self.n.mul(a).sub(o.n.mul(b)), l)
 
     def __rsub__(self, o):
         o = self._coerce(o)
@@ -291,12 +293,27 @@ class Sym:
         return o.__sub__(self)
 
     def __mul__(self, o):
+        o0 = o
         o = self._coerce(o)
         if o is None:
+            if hasattr(o0, "tocsr") and hasattr(o0, "nnz") and not hasattr(o0, "a"):
+                from .facade import SymMatrix  # scalar * real scipy sparse matrix
+
+                return SymMatrix.from_any(o0) * self
             return NotImplemented
         if self.d.is_const() and o.d.is_const():
             return Sym(self.n.mul(o.n))
-        return Sym.make(self.n.mul(o.n), self.d.mul(o.d))
+        n1, d1, n2, d2 = self.n, self.d, o.n, o.d
+        # cross cancellation
+        if not d2.is_const() and not n1.is_const() and d2.nterms() <= 200 and n1.nterms() <= 2000:
+            q = n1.exact_div(d2, 4000)
+            if q is not None:
+                n1, d2 = q, _P1
+        if not d1.is_const() and not n2.is_const() and d1.nterms() <= 200 and n2.nterms() <= 2000:
+            q = n2.exact_div(d1, 4000)
+            if q is not None:
+                n2, d1 = q, _P1
+        return Sym.make(n1.mul(n2), d1.mul(d2))
 
     __rmul__ = __mul__
 
@@ -531,6 +548,27 @@ class Sym:
         if self.d.is_const():
             return f"Sym({fmt(self.n)})"
         return f"Sym(({fmt(self.n)})/({fmt(self.d)}))"
+
+
+def _common_den(d1, d2):
+    """multipliers (a, b) and common denominator l with l = a*d1 = b*d2 (cheap: divisibility tests only)."""
+    if d1.is_const():
+        return d2.scale(1 / d1.const_value()), _P1, d2
+    if d2.is_const():
+        return _P1, d1.scale(1 / d2.const_value()), d1
+    if d1.nterms() <= 400 and d2.nterms() <= 400:
+        if d2.nterms() >= d1.nterms():
+            q = d2.exact_div(d1, 4000)
+            if q is not None:
+                return q, _P1, d2
+        q = d1.exact_div(d2, 4000)
+        if q is not None:
+            return _P1, q, d1
+        if d2.nterms() < d1.nterms():
+            q = d2.exact_div(d1, 4000)
+            if q is not None:
+                return q, _P1, d2
+    return d2, d1, d1.mul(d2)
 
 
 def _vid(var):
